@@ -197,10 +197,11 @@ fn self_check(p: &Project) -> Option<String> {
 }
 
 pub fn build(seed: u64) -> (Project, Concrete) {
-    let p = modgen::generate(seed);
-    let mut c = p.concrete.clone();
     let mut fl = Rng::sub(seed, "c12-flags");
-    c.no_std = fl.chance(1, 4);
+    let no_std = fl.chance(1, 4);
+    let p = modgen::generate_with(seed, !no_std);
+    let mut c = p.concrete.clone();
+    c.no_std = no_std;
     c.hash_seed = fl.next();
     // how the main file is named on the command line must not matter
     c.main_spelling = match fl.below(6) {
